@@ -1,4 +1,5 @@
 import Abyss.Props.C05
+import Abyss.Lemmas.AllocCount
 /-!
 # C06 — freed storage is reclaimed; slots tile the files; a file grows only when nothing fits
 -/
@@ -13,7 +14,33 @@ theorem C06_partition {α : Type} {c : FileCfg} {f : RecFile α} (hc : CfgOK c) 
     (∃ sz nx, sl = .free sz nx ∧ headIdx c sz < 16 ∧
       (∃ l, freeList f (headIdx c sz) = some l ∧ l.count o = 1) ∧
       (∀ i l, i < 16 → i ≠ headIdx c sz → freeList f i = some l → o ∉ l)) := by
-  sorry
+  cases sl with
+  | used sz p =>
+    left
+    refine ⟨sz, p, rfl, ?_⟩
+    intro i l hi hl hm
+    obtain ⟨l', hl', _, hcl⟩ := h.lists i hi
+    rw [hl] at hl'
+    cases hl'
+    obtain ⟨sz', nx, hg', _⟩ := hcl o hm
+    rw [hg] at hg'
+    cases hg'
+  | free sz nx =>
+    right
+    refine ⟨sz, nx, rfl, hc.idx_lt sz, ?_, ?_⟩
+    · obtain ⟨l, hl, hm⟩ := h.onlist o sz nx hg
+      obtain ⟨l', hl', nd, _⟩ := h.lists _ (hc.idx_lt sz)
+      rw [hl] at hl'
+      cases hl'
+      exact ⟨l, hl, List.count_eq_one_of_mem nd hm⟩
+    · intro i l hi hne hl hm
+      obtain ⟨l', hl', _, hcl⟩ := h.lists i hi
+      rw [hl] at hl'
+      cases hl'
+      obtain ⟨sz', nx', hg', hi'⟩ := hcl o hm
+      rw [hg] at hg'
+      cases hg'
+      exact hne hi'.symm
 
 /-- the slots tile the file: each starts where the previous one ends, from the end of the header
 to the end of the file, so there are neither gaps nor overlaps -/
@@ -23,14 +50,18 @@ theorem C06_tiling {α : Type} {c : FileCfg} {f : RecFile α} (h : WF c f) :
 theorem C06_no_overlap {α : Type} {c : FileCfg} {f : RecFile α} (hc : CfgOK c) (h : WF c f)
     (o o' : Nat) (s s' : Slot α) (h1 : f.get o = some s) (h2 : f.get o' = some s') (hlt : o < o') :
     o + s.size ≤ o' := by
-  sorry
+  have _ := hc
+  exact h.tiled.no_overlap h1 h2 hlt
 
 /-- every used value record belongs to exactly one live entry, every used key record is one -/
 theorem C06_owned {kt : KeyType} {s : Store} (h : Inv kt s) (vo vs : Nat) (v : List Nat)
     (hu : s.vf.used vo = some (vs, v)) :
     ∃ o sz r, s.kf.used o = some (sz, r) ∧ r.valOff = vo ∧
       ∀ o' sz' r', s.kf.used o' = some (sz', r') → r'.valOff = vo → o' = o := by
-  sorry
+  obtain ⟨o, sz, r, hk, hv⟩ := h.val_owned vo vs v hu
+  refine ⟨o, sz, r, hk, hv, ?_⟩
+  intro o' sz' r' hk' hv'
+  exact h.val_inj o' o sz' sz r' r hk' hk (hv'.trans hv.symm)
 
 /-- a file is extended only when the free list of the requested class offers nothing that fits
 (exact class for the small classes, first fit on the shared large list) -/
@@ -59,13 +90,32 @@ theorem C06_small_class_bound {α : Type} {c : FileCfg} {f f' : RecFile α} (hc 
     {need off : Nat} (hn : LegalSz c need) (hsmall : Gen.isLargePieceSize c.sizeAry need = false) {p : α}
     (hadd : addPiece c f need p = some (off, f')) (sz : Nat) :
     slotsOfSize f' sz ≤ max (slotsOfSize f sz) (usedOfSize f' sz) := by
-  sorry
+  have _ := hc
+  have e1 : ∀ g : RecFile α, ∀ z, slotsOfSize g z = sizeCount g z := fun _ _ => rfl
+  have e2 : ∀ g : RecFile α, ∀ z, usedOfSize g z = usedSizeCount g z := by
+    intro g z
+    unfold usedOfSize usedSizeCount
+    congr 2
+  rw [e1, e1, e2]
+  rcases addPiece_small_count h hsmall hadd with ⟨a, b⟩ | a
+  · by_cases hsz : sz = need
+    · subst hsz
+      rw [a]
+      exact Nat.le_max_right _ _
+    · rw [b sz hsz]
+      exact Nat.le_max_left _ _
+  · rw [a sz]
+    exact Nat.le_max_left _ _
 
 /-- freeing never adds a slot -/
 theorem C06_delete_no_growth {α : Type} {c : FileCfg} {f f' : RecFile α} (hc : CfgOK c) (h : WF c f)
     {off sz0 : Nat} {p0 : α} (hu : f.used off = some (sz0, p0)) (hd : deletePiece c f off = some f') (sz : Nat) :
     slotsOfSize f' sz = slotsOfSize f sz ∧ f'.end_ = f.end_ := by
-  sorry
+  have hg : f.get off = some (.used sz0 p0) := used_eq_some.mp hu
+  unfold deletePiece at hd
+  simp only [hg, Slot.size, Option.some.injEq] at hd
+  subst hd
+  exact ⟨sizeCount_pushFree hc h hg sz, (pushFree_spec hc h hg).2.2.2.2.2⟩
 
 /-- the sequential slot walk of the statistics calls terminates and visits exactly the slots -/
 theorem C06_walk_terminates {α : Type} {c : FileCfg} {f : RecFile α} (hc : CfgOK c) (h : WF c f) :
